@@ -1439,6 +1439,7 @@ func RunWhere(opts GlobalOptions) error {
 	if opts.StartDir != "" {
 		start = opts.StartDir
 	}
+	verifPoint("start")
 	ergoDir, err := resolveErgoDir(start)
 	if err != nil {
 		return err
